@@ -16,6 +16,7 @@ Expected(e) == IF e.methods = <<"tdvp12run">> THEN Setup(e.N) \o NoW(Cache(Multi
                ELSE IF e.interleave_measure      \* dmrg_: energy measured after setup and after every sweep
                THEN Setup(e.N) \o M0 \o Cat([k \in 1..Len(e.methods) |-> NoW(Cache(Schedule(e.N, e.methods[k], e.decisions[k]))) \o M0])
                ELSE Setup(e.N) \o Cat([k \in 1..Len(e.methods) |-> NoW(Cache(Schedule(e.N, e.methods[k], e.decisions[k])))]) \o e.tail
+Converged(c) == Len(c) > 0 /\ \A i \in 1..Len(c) : c[i] = TRUE        \* at least one criterion given, and all of the given ones satisfied
 Ok(e) == CASE e.op = "coherence" -> Run(Init0(e.N), e.events, e.pre, 1).bad = <<>>
            [] e.op = "schedule"  -> e.cache = Expected(e)
            [] e.op = "dmrg_sweep" ->        \* energies scaled by 10^7; tol in the same units
@@ -26,12 +27,18 @@ Ok(e) == CASE e.op = "coherence" -> Run(Init0(e.N), e.events, e.pre, 1).bad = <<
            [] e.op = "tdvp_snapshot" ->
                  /\ e.ti = e.ti_expected /\ e.steps_ok                             \* snapshots tile the time grid; steps * dt = tf - ti
                  /\ AllV(e.verdicts)
+           [] e.op = "dmrg_stop" ->         \* the stopping rule of dmrg_ (iterator mode, one entry of e.sat per performed sweep: which of the GIVEN criteria it satisfied)
+                 /\ Len(e.sat) >= 1 /\ Len(e.sat) <= e.max_sweeps
+                 /\ \A k \in 1..(Len(e.sat) - 1) : ~Converged(e.sat[k])             \* it went on only while some given criterion was not met
+                 /\ (Len(e.sat) < e.max_sweeps => Converged(e.sat[Len(e.sat)]))     \* it stopped early only when ALL given criteria were met
+                 /\ AllV(e.verdicts)
 Why(e) == CASE e.op = "coherence" -> <<"environment cache", e.what, Run(Init0(e.N), e.events, e.pre, 1).bad>>
             [] e.op = "schedule" -> <<"cache events differ from the schedule", e.what, "first difference at",
                                       CHOOSE k \in 1..(Len(e.cache) + 1) : k > Len(e.cache) \/ k > Len(Expected(e)) \/ e.cache[k] # Expected(e)[k],
                                       "observed length", Len(e.cache), "expected length", Len(Expected(e))>>
             [] e.op = "dmrg_sweep" -> <<"dmrg sweep", e.what, "E", e.E, "Edense", e.Edense, "E0", e.E0, "Eprev", e.Eprev, "monotone", e.monotone, e.verdicts>>
             [] e.op = "tdvp_snapshot" -> <<"tdvp snapshot", e.what, e.ti, e.ti_expected, e.steps_ok, e.verdicts>>
+            [] e.op = "dmrg_stop" -> <<"dmrg stopping rule", e.what, "criteria met per sweep", e.sat, "max_sweeps", e.max_sweeps, e.verdicts>>
 (* a coherence event is replayed through EnvCoherence in chunks of at most Chunk cache events per TLC step (st = cache state so far, p = events consumed), *)
 (* so that a recording of thousands of events neither nests deeply nor is re-run for the diagnosis                                                          *)
 Chunk == 150
